@@ -60,6 +60,9 @@ type c11Method struct {
 	rule      *c11Rule
 }
 
+// server-streaming methods, by id (registerService handles a service's streams after its unary methods)
+var c11Streaming = map[int]bool{11: true}
+
 const (
 	c11GET  = 1
 	c11POST = 2
@@ -92,19 +95,24 @@ var c11Methods = []c11Method{
 	// a '*'-kind rule and a GET rule of the same method at one node: both are stored, removal takes both
 	{9, "SvcD", "D2", 9, &c11Rule{verb: "*", tmpl: "/c11/dd/{id}", key: c11Key{20, 0, true}, add: []c11Rule{
 		{verb: "GET", tmpl: "/c11/dd/{id}", key: c11Key{20, c11GET, true}}}}},
+	// a service whose unary method is fine and whose streaming method has a rule that cannot be bound: the
+	// registration fails after the unary method has been handled, and must leave nothing behind
+	{10, "SvcY", "Y1", 10, &c11Rule{verb: "GET", tmpl: "/c11/yy/{id}", key: c11Key{21, c11GET, true}}},
+	{11, "SvcY", "Y2", 11, &c11Rule{verb: "GET", tmpl: "/c11/yz/{nofield}", key: c11Key{22, c11GET, false}}},
 }
 
 // descriptor sets: id -> services (a service carries all its methods)
 var c11Descs = map[int][]string{
-	1: {"SvcA"},
-	2: {"SvcA", "SvcB"},
-	3: {"SvcB"},
-	4: {"SvcC"},
-	5: {"SvcA", "SvcX"},
-	6: {"SvcL"},         // local only
-	7: {"SvcA", "SvcB"}, // the same as 2, but every service in a file of its own (c11Split): one package, several files
-	8: {"SvcA"},         // the same as 1 in a later version of the schema: Req declares a new field before id (c11Reordered)
-	9: {"SvcD"},         // '*'-kind rules (not in the alphabet of the exhaustive histories: c11StarHistories)
+	1:  {"SvcA"},
+	2:  {"SvcA", "SvcB"},
+	3:  {"SvcB"},
+	4:  {"SvcC"},
+	5:  {"SvcA", "SvcX"},
+	6:  {"SvcL"},         // local only
+	7:  {"SvcA", "SvcB"}, // the same as 2, but every service in a file of its own (c11Split): one package, several files
+	8:  {"SvcA"},         // the same as 1 in a later version of the schema: Req declares a new field before id (c11Reordered)
+	9:  {"SvcD"},         // '*'-kind rules (not in the alphabet of the exhaustive histories: c11StarHistories)
+	10: {"SvcY"},         // a valid unary method and a streaming method that cannot be bound (c11StarHistories)
 }
 
 // descriptor sets whose Req message is {tenant = 3; id = 1} (declaration order differs, numbers do not)
@@ -248,6 +256,9 @@ func c11BuildFileWith(path string, svcs []string, common protoreflect.FileDescri
 				continue
 			}
 			md := &descriptorpb.MethodDescriptorProto{Name: proto.String(m.name), InputType: proto.String(".c11.Req"), OutputType: proto.String(".c11.Rep")}
+			if c11Streaming[m.id] {
+				md.ServerStreaming = proto.Bool(true)
+			}
 			if m.rule != nil && !m.rule.cfg {
 				dr := dynRule{Verb: m.rule.verb, Tmpl: m.rule.tmpl, Body: m.rule.body}
 				for _, a := range m.rule.add {
@@ -386,7 +397,7 @@ func c11Setup() *c11Env {
 		}
 		e.files[id] = c11BuildFileWith(fmt.Sprintf("c11/d%d.proto", id), svcs, nil, c11Reordered[id])
 	}
-	e.local = c11BuildFile("c11/local.proto", []string{"SvcA", "SvcL"})
+	e.local = c11BuildFile("c11/local.proto", []string{"SvcA", "SvcL", "SvcY"})
 	for i := 0; i < 4; i++ {
 		b := &c11Backend{id: i}
 		tag := fmt.Sprintf("c%d", i)
@@ -710,6 +721,11 @@ func c11StarHistories(each func(ops []string, label string)) {
 	for _, h := range [][]string{{"R0.9", "R1.1", "D0", "R1.1"}, {"R0.1", "R1.9", "D0", "R1.9", "D1"}, {"L0.1", "R0.9", "R1.9"}, {"R0.9", "R1.9", "D0", "D1", "R2.1"},
 		{"R0.5", "R1.9"}, {"R0.9", "R0.1", "R0.9"}, {"R1.9", "R2.2", "D1", "R2.2", "R1.9"}} {
 		each(h, "star-rules")
+	}
+	for _, a := range c11Alphabet {
+		each([]string{a, "L1.10"}, "fails-in-a-streaming-method")
+		each([]string{"L0.10", a}, "fails-in-a-streaming-method")
+		each([]string{a, "R0.10", "D0"}, "fails-in-a-streaming-method")
 	}
 }
 
